@@ -765,3 +765,14 @@ func (vc *VC) posStr(p token.Pos) string {
 	}
 	return fmt.Sprintf("%s:%d", f, ps.Line)
 }
+
+// sortedKeys: map keys in a fixed order (the order in which heaps are havocked, compared and framed decides the
+// order of declarations and assertions in the SMT script; a fixed order makes every run produce the same script).
+func sortedKeys[V any](m map[string]V) []string {
+	ks := make([]string, 0, len(m))
+	for k := range m {
+		ks = append(ks, k)
+	}
+	sort.Strings(ks)
+	return ks
+}
